@@ -605,6 +605,9 @@ func (e *Engine) setCtx(fn *ssa.Function) {
 	if f != nil && f.Pkg != nil {
 		p = f.Pkg.Pkg.Path()
 	}
+	// the visit budgets of the allocation / ghost analyses are per function under verification (they used to be per
+	// engine run, which made the answer for a callee depend on which functions had been verified before)
+	allocVisits, ghostVisits = 0, 0
 	if p != e.ctxPkg {
 		e.ctxPkg = p
 		if len(e.CtxContracts) > 0 {
